@@ -193,6 +193,10 @@ impl Expression {
                 let (array_ty_nomod, modifer) = module.type_registry.extract_modifier(array_ty.0);
                 let array_tyl_nomod = module.type_registry.get_type_layer(array_ty_nomod);
                 let ty = match array_tyl_nomod {
+                    // An element of a const array (const applied to an array typedef) is const
+                    TypeLayer::Array(element, _) if modifer.is_const => {
+                        module.type_registry.make_const(element)
+                    }
                     TypeLayer::Array(element, _) => element,
                     TypeLayer::Vector(st, _) => module.type_registry.combine_modifier(st, modifer),
                     TypeLayer::Matrix(st, _, y) => {
@@ -284,12 +288,22 @@ impl Expression {
 
                 // RayDesc is not a real struct so custom check each of its members
                 if let TypeLayer::Object(ObjectType::RayDesc) = tyl {
+                    // The members of a const RayDesc are const
+                    let ray_mod = TypeModifier {
+                        is_const: module
+                            .type_registry
+                            .extract_modifier(expr_type.0)
+                            .1
+                            .is_const,
+                        ..TypeModifier::default()
+                    };
                     return match name.as_str() {
                         "Origin" | "Direction" => {
                             let f = module
                                 .type_registry
                                 .register_type(TypeLayer::Scalar(ScalarType::Float32));
                             let f3 = module.type_registry.register_type(TypeLayer::Vector(f, 3));
+                            let f3 = module.type_registry.combine_modifier(f3, ray_mod);
                             let ety = ExpressionType(f3, expr_type.1);
                             Ok(ety)
                         }
@@ -297,6 +311,7 @@ impl Expression {
                             let f = module
                                 .type_registry
                                 .register_type(TypeLayer::Scalar(ScalarType::Float32));
+                            let f = module.type_registry.combine_modifier(f, ray_mod);
                             let ety = ExpressionType(f, expr_type.1);
                             Ok(ety)
                         }
